@@ -55,7 +55,7 @@ _KEEP = {
     'XAwE': ['d', 'e', 'same', 'exc'],
     'IdleB': ['d', 'b', 'tmo'],
     'IdleE': ['d', 'b', 'exc', 'qn'],
-    'StopB': ['d', 'b', 'tmo'],
+    'StopB': ['d', 'b', 'tmo', 'running'],
     'StopE': ['d', 'b', 'exc'],
     'CancelRL': ['d', 'b'],
     'ExpB': ['d', 'x', 'b', 'ty', 'inc', 'exc', 'tmo'],
@@ -79,6 +79,8 @@ def obs_line(l):
             out[k] = l[k]
         if a == 'HEnter':
             out['byk'], out['bya'] = _by(l['by'])
+        if a == 'ProcB':
+            out['ok'], out['oa'] = _by(l['owner'])
     else:
         out = {'a': 'Other'}
     out['t'] = l['t']
